@@ -547,17 +547,36 @@ def run(ctx):
     obs = ['squid problem during %s: %s' % (k, what[:300]) for k, what, c in r['crashes']]
     vio += [Violation('crash:cl=%s,te=%s,term=%s' % (c['cl'], c['te'], c['term']), 'squid crashed/asserted during case %r: %s' % (c, what), {'case': c})
             for k, what, c in r['crashes'] if c]
+    # written-out samples: a fixed handful of cases re-run on one more instance (the per-shard samples of
+    # run_cases are all "first case of a shard" and look alike)
+    want = [('plain', 'absent', 'crlf', '1.1'), ('plain', 'chunked', 'crlf', '1.1'), ('dup-differ', 'absent', 'crlf', '1.1'),
+            ('list-equal', 'absent', 'crlf', '1.1'), ('absent', 'vt-prefixed', 'crlf', '1.1'), ('plain', 'absent', 'lf', '1.1'),
+            ('absent', 'chunked', 'crlf', '1.0'), ('obs-fold', 'absent', 'crlf', '1.1')]
+    picked = []
+    for wcl, wte, wterm, wver in want:
+        for c in cases:
+            if c and (c['cl'], c['te'], c['term'], c['ver'], c['layout'], c['method'], c['relaxed']) == (wcl, wte, wterm, wver, 'A', 'POST', 'on'):
+                picked.append(c)
+                break
     samples = []
-    for smp in r['samples']:
-        if not smp.get('case'):
-            continue
-        c = smp['case']
-        stream, parts = build_stream(c, '127.0.0.1:P', lambda p: 'http://127.0.0.1:P' + p)
-        L, term = ref_delimit(stream)
-        samples.append({'case': c, 'client_sent_M1_head': repr(stream[:stream.find(parts['body'])]), 'then': 'body[%d] + marker request' % parts['N'],
-                        'reference': '%d message(s) %s then %s' % (len(L), [(m['method'].decode(), m['target'].decode()[-8:], m['framing'], len(m['body'])) for m in L],
-                                                                  term['kind'] + (':' + term.get('reason', '') if term['kind'] == 'reject' else '')),
-                        'squid': smp['outcome']})
+    if picked and ctx.remaining() > 30:
+        w = make_world_for(ctx, 0, 'on')
+        w.start()
+        try:
+            for c in picked:
+                rr = run_case(w, c)
+                stream, parts = build_stream(c, w.hostport(), w.url)
+                L, term = ref_delimit(stream)
+                samples.append({'case': {k: c[k] for k in ('layout', 'cl', 'te', 'term', 'method', 'ver', 'relaxed')},
+                                'client_sent_M1_head': repr(stream[:stream.find(parts['body'])]),
+                                'then': 'body %r + pipelined marker request' % (parts['body'][:24] + b'...'),
+                                'reference': '%s then %s' % ([(m['method'].decode(), m['target'].decode()[-9:], m['framing'], len(m['body'])) for m in L],
+                                                             term['kind'] + (': ' + term.get('reason', '') if term['kind'] == 'reject' else '')),
+                                'squid': rr['outcome'], 'client_saw_statuses': rr['info']['statuses']})
+        finally:
+            w.stop()
+    if not samples:
+        samples = [{'case': smp['case'], 'squid': smp['outcome']} for smp in r['samples'] if smp.get('case')]
     cov = {'evaluations': evaluations, 'distinct_nontrivial': fwd_some + rejected + flagged, 'rule': RULE, 'samples': samples,
            'outcome_classes': oc, 'exhaustive': not r['deadline_hit'] and evaluations == total, 'kicks': r['kicks'],
            'determinism_replays': r['replays'], 'cases_total': total, 'trivial': trivial,
